@@ -42,9 +42,14 @@ def gen_world(rng, P, name):
     scn.bind_model = rng.random() < 0.4
     if scn.listeners_ctor and scn.listener_kind == "class" and rng.random() < 0.2:
         scn.listener_kind = "singleton"
+    if not any(c.provider == "model" for c in scn.cbs) and rng.random() < 0.2:
+        # the machine is created without a model: the library's default `Model()` holds the state
+        scn.model_shape, scn.bind_model, scn.cur0 = "default", False, None
     w.families.append(W.Family(scn=scn, cls_name="C17_" + name.replace("-", "_")))
     base = W.member_variant(rng, P, scn, f"{name}-m0")
     base.state_field = scn.state_field
+    if scn.model_shape == "default":
+        base.cur0 = None
     base.ops = [o for o in base.ops if o[0] != "reconstruct"]
     evs = sorted({e for t in scn.trans for e in t.events})
     w.members.append(W.Member(fam=0, scn=base))
